@@ -42,7 +42,7 @@ func elemLoad(v ssa.Value) (base, idx ssa.Value, ok bool) {
 
 // RuleEscParity: escape tests are parity-aware.
 func (c *Ctx) RuleEscParity() *Result {
-	res := &Result{Rule: "ESC-PARITY", MinInst: 3}
+	res := &Result{Rule: "ESC-PARITY", MinInst: 2}
 	for _, fn := range c.P.RepoFns {
 		allInstrs(fn, func(in ssa.Instruction) {
 			b, ok := in.(*ssa.BinOp)
@@ -461,7 +461,7 @@ func (c *Ctx) RuleScanBound() *Result {
 				}
 				return false
 			}
-			if c.guardedByEdges(in, pred) {
+			if c.guardedByEdges(in, pred) || (asc && rotatedBound(p, base)) {
 				res.ok(key, pos, "the element access is only reached when the induction variable is within the text")
 			} else {
 				dir := "reaches the end of the text"
@@ -473,6 +473,39 @@ func (c *Ctx) RuleScanBound() *Result {
 		})
 	}
 	return res
+}
+
+// rotatedBound: the loop is in rotated form (for i := range len(s)): the header phi receives, on every
+// incoming edge, a value that the predecessor has just compared with len(base) (v < len(base), true edge).
+func rotatedBound(p *ssa.Phi, base ssa.Value) bool {
+	blk := p.Block()
+	isLen := func(x ssa.Value) bool {
+		if call, ok := x.(*ssa.Call); ok {
+			if bi, ok := call.Call.Value.(*ssa.Builtin); ok && bi.Name() == "len" {
+				return sameBase(call.Call.Args[0], base)
+			}
+		}
+		return false
+	}
+	for i, pred := range blk.Preds {
+		iff, ok := pred.Instrs[len(pred.Instrs)-1].(*ssa.If)
+		if !ok || pred.Succs[0] != blk {
+			return false
+		}
+		b, ok := iff.Cond.(*ssa.BinOp)
+		if !ok || b.Op != token.LSS || !isLen(b.Y) {
+			return false
+		}
+		e := p.Edges[i]
+		if b.X != e {
+			ce, ok1 := constInt(e)
+			cx, ok2 := constInt(b.X)
+			if !ok1 || !ok2 || ce != cx {
+				return false
+			}
+		}
+	}
+	return len(blk.Preds) > 0
 }
 
 func sameBase(a, b ssa.Value) bool {
